@@ -63,17 +63,19 @@ SortPost(c, res) ==
 -----------------------------------------------------------------------------
 Verdict(ev) ==
     IF ev.k = "sort" THEN
-        (IF SortPost(ev.c, ev.res) THEN [v |-> "s"] ELSE [v |-> "x", want |-> "15.4.4.11 postcondition"])
+        (IF SortPost(ev.c, ev.res) THEN [v |-> "s"] ELSE [v |-> "x", want |-> "15.4.4.11 postcondition", wantdev |-> ""])
     ELSE IF ev.k = "call" THEN
         (LET es == S!RunCall(ev.c)
+             ed == L!RunCall(ev.c)
          IN  IF es = ev.res THEN [v |-> "s"]
-             ELSE IF L!RunCall(ev.c) = ev.res THEN [v |-> "d"]
-             ELSE [v |-> "x", want |-> es])
+             ELSE IF ed = ev.res THEN [v |-> "d"]
+             ELSE [v |-> "x", want |-> es, wantdev |-> ed])
     ELSE \* "hist": a path of steps and a final step on a fresh array
         (LET ss == S!StepOutcome(S!RunPath(S!Mk(S!HistHeap0, <<>>), ev.c.path, 1).H, ev.c.step).out
+             sd == L!StepOutcome(L!RunPath(L!Mk(L!HistHeap0, <<>>), ev.c.path, 1).H, ev.c.step).out
          IN  IF ss = ev.res THEN [v |-> "s"]
-             ELSE IF L!StepOutcome(L!RunPath(L!Mk(L!HistHeap0, <<>>), ev.c.path, 1).H, ev.c.step).out = ev.res THEN [v |-> "d"]
-             ELSE [v |-> "x", want |-> ss])
+             ELSE IF sd = ev.res THEN [v |-> "d"]
+             ELSE [v |-> "x", want |-> ss, wantdev |-> sd])
 
 Init == blk \in 0..(NBlocks - 1) /\ cs = 0
 Next == /\ cs = 0
